@@ -16,6 +16,8 @@ NOT_PROVED = ["sign of the product d[i]*d[i+1] when it underflows in binary64 (|
 EXHAUSTIVE = True
 
 
+PROP_MODULES = ['C11', 'C11Gen']
+
 def spec_peaks(v, P):
     """C11.a-c evaluated on an index list P for the series v (exact comparisons). Returns None or the violated clause."""
     n = len(v)
@@ -236,4 +238,267 @@ _run_main = run
 def run(ctx):
     _run_main(ctx)
     extras(ctx)
+    ctx.flush()
+
+
+# ---- extras2 (harness extension hx_b): wrappers / helpers / options, large instances, exact scaling, containers ---------------------------
+
+def np_spec_peaks(a):
+    """the property's own definition of the reported indices, evaluated with NumPy comparisons only (no products, no tolerances), O(n):
+    index 0, the first sample of every plateau that is a strict local extremum, the first sample of the final constant run"""
+    a = np.asarray(a, dtype=float)
+    idx = np.concatenate(([0], np.nonzero(a[1:] != a[:-1])[0] + 1))      # first sample of every plateau
+    c = a[idx]
+    up = c[1:] > c[:-1]                                                   # direction of every move between plateaus (never flat)
+    turn = np.nonzero(up[1:] != up[:-1])[0] + 1
+    return np.concatenate(([idx[0]], idx[turn], [idx[-1]])) if len(idx) > 1 else idx[:1]
+
+
+def np_spec_ptype(a, P):
+    """(local maxima, local minima) among the reported indices P; end points classified by the adjacent segment"""
+    a = np.asarray(a, dtype=float)
+    pv = a[P]
+    is_max = np.empty(len(P), dtype=bool)
+    is_max[:-1] = pv[:-1] > pv[1:]
+    is_max[-1] = pv[-1] > pv[-2]
+    return P[is_max], P[~is_max]
+
+
+def _same(x, y):
+    x, y = np.asarray(x), np.asarray(y)
+    return x.shape == y.shape and bool(np.all(x == y))
+
+
+def _large_record(rng, kind, n):
+    """(description, record) - seeded from ctx.rng; thousands of turning points"""
+    seed = rng.randrange(2 ** 31)
+    g = np.random.default_rng(seed)
+    if kind == 'int-walk':
+        v = g.integers(-3, 4, size=n).astype(float)
+    elif kind == 'plateau':
+        v = np.repeat(g.integers(-5, 6, size=n // 3 + 1), g.integers(1, 6, size=n // 3 + 1))[:n].astype(float)
+        if len(v) < n:
+            v = np.concatenate((v, np.full(n - len(v), v[-1])))
+    elif kind == 'noise':
+        v = g.standard_normal(n)
+    else:   # dyadic multiples of 1/8 with long monotone stretches (few turning points per sample) and flat starts/ends
+        steps = g.integers(-2, 3, size=n) * np.repeat(g.choice([-1, 1], size=n // 50 + 1), 50)[:n]
+        v = np.cumsum(steps) / 8.0
+        v[:7] = v[7]
+        v[-5:] = v[-6]
+    return {'generator': 'c11._large_record', 'kind': kind, 'n': n, 'numpy_seed': seed}, v
+
+
+def _light_history(ctx, cls, values, dt):
+    """like Ctx.aged but without filling the (expensive) spectral caches: fresh object, or one built on a record of another / the same
+    length and reset"""
+    rng = ctx.rng
+    kind = rng.choice(['fresh', 'reset-other-length', 'reset-same-length', 'reset-shorter'])
+    ctx.hist('object-history(light)/' + kind)
+    ctx.last_object_history = kind
+    values = np.array(values, dtype=float)
+    n = len(values)
+    if kind == 'fresh':
+        return cls(values, dt)
+    m = n + rng.randint(1, 9) if kind == 'reset-other-length' else n if kind == 'reset-same-length' else max(2, n - rng.randint(1, max(1, n // 2)))
+    s = cls(np.array([rng.uniform(-1, 1) for _ in range(min(m, 50))] * (m // min(m, 50) + 1))[:m], dt)
+    s.npts
+    s.time
+    s.reset_values(values)
+    return s
+
+
+def _x2_wrappers(ctx, cur):
+    import eqsig
+    from eqsig.fns import peaks_and_crossings as pc
+    rng = ctx.rng
+    quick = ctx.tier == 'quick'
+
+    # ---- (3) object-level wrapper, deprecated alias, helpers of the anchored mechanism ------------------------------------------------
+    for it in range(60 if quick else 600):
+        n = gen.log_int(rng, 2, 80)
+        kind = rng.choice(['plateau', 'int', 'dyadic', 'noise', 'offset-plateau'])
+        v = (gen.plateau_record(rng, n) if kind == 'plateau' else gen.int_record(rng, n) if kind == 'int' else gen.dyadic_record(rng, n)
+             if kind == 'dyadic' else gen.noise_record(rng, n) if kind == 'noise' else gen.plateau_record(rng, n, levels=(3, 4, 5, 7), p_repeat=0.6))
+        ctx.hist('extras2/wrappers/' + kind)
+        ctx.count_case(('x2w', v.tobytes()), gen.nontrivial_record(v))
+        inputs = {'values': v.tolist()}
+        cur.clear()
+        cur.update(inputs)
+        # clean_out_non_changing: every sample that differs from its predecessor (and sample 0) survives, nothing else; values are those samples
+        rc = call_impl(pc.clean_out_non_changing, v.copy())
+        want_idx = sorted({0} | {i for i in range(1, n) if v[i] != v[i - 1]})
+        ok = rc[0] == 'ok' and len(rc[1]) == 2
+        if ok:
+            cv, ci = np.asarray(rc[1][0]), np.asarray(rc[1][1])
+            ok = (bool(np.all(np.diff(ci) >= 0)) and sorted(set(int(i) for i in ci)) == want_idx and len(cv) == len(ci)
+                  and bool(np.all(cv == v[ci])))
+        ctx.oracle('C11 clean_out_non_changing: indices ascending, their set == {0} + {i : v[i] != v[i-1]}, cleaned values == v[indices]', ok, inputs,
+                   detail=None if rc[0] != 'ok' else {'indices': np.asarray(rc[1][1]).tolist()[:20], 'want': want_idx[:20]})
+        if len(set(v.tolist())) < 2:
+            continue
+        ref = pc.get_peak_array_indices(v)
+        # object-level wrapper on objects with a history
+        dt = gen.any_dt(rng)
+        asig = ctx.aged(eqsig.AccSignal, v, dt) if it % 4 == 0 else _light_history(ctx, eqsig.AccSignal, v, dt)
+        rw = call_impl(pc.get_peak_indices, asig)
+        ctx.oracle('C11 get_peak_indices(asig) == get_peak_array_indices(asig.values) == the turning points of the record', rw[0] == 'ok' and
+                   _same(rw[1], ref) and _same(rw[1], np_spec_peaks(v)), {**inputs, 'dt': dt}, detail={'wrapper': rw[1], 'array-level': ref})
+        ctx.oracle('C11 get_peak_indices leaves the record of the object unchanged', _same(asig.values, v), {**inputs, 'dt': dt})
+        ctx.last_object_history = None
+        sig = eqsig.Signal(v, dt)
+        rw = call_impl(pc.get_peak_indices, sig)
+        ctx.oracle('C11 get_peak_indices(Signal) == get_peak_array_indices(values)', rw[0] == 'ok' and _same(rw[1], ref), {**inputs, 'dt': dt})
+        # the cleaned-array helper and its deprecated alias: on a series without adjacent repeats it IS the peak finder
+        cleaned = v[np.concatenate(([True], v[1:] != v[:-1]))]
+        if len(cleaned) >= 2:
+            r1 = call_impl(pc.determine_indices_of_peaks_for_cleaned_array, cleaned.copy())
+            r2 = call_impl(pc.determine_indices_of_peaks_for_cleaned, cleaned.copy())
+            want = np_spec_peaks(cleaned)
+            ctx.oracle('C11 determine_indices_of_peaks_for_cleaned_array(series without adjacent repeats) == its turning points == get_peak_array_indices',
+                       r1[0] == 'ok' and _same(r1[1], want) and _same(r1[1], pc.get_peak_array_indices(cleaned)), {'values': cleaned.tolist()},
+                       detail={'got': r1[1], 'want': want})
+            ctx.oracle('C11 deprecated alias determine_indices_of_peaks_for_cleaned == determine_indices_of_peaks_for_cleaned_array',
+                       r1[0] == r2[0] and (r1[0] != 'ok' or _same(r1[1], r2[1])), {'values': cleaned.tolist()}, detail={'alias': r2[1], 'main': r1[1]})
+        # ---- options of the cycle counter: opt='switched' numbers the switched peaks; unknown option values are rejected
+        for start in ('origin', 'peak'):
+            rs = call_impl(pc.get_n_cyc_array, v, opt='switched', start=start)
+            S = [int(s) for s in pc.get_switched_peak_array_indices(v)]
+            if S[0] != 0:
+                S = [0] + S
+            ok = rs[0] == 'ok' and len(rs[1]) == n
+            if ok:
+                f = [fr(x) for x in rs[1]]
+                off = Fraction(-1, 4) if start == 'origin' else Fraction(0)
+                ok = (all(b >= a for a, b in zip(f, f[1:])) and all(f[s] == Fraction(t, 2) + (off if t else 0) for t, s in enumerate(S))
+                      and all(x == f[S[-1]] for x in f[S[-1]:]))
+            ctx.oracle("C11.e cycle counter with opt='switched': series length, non-decreasing, +0.5 between consecutive switched peaks "
+                       "(0.25 up to the first one from the origin)", ok, {**inputs, 'start': start}, detail={'switched (with 0)': S[:20], 'got': rs[1]})
+        if it % 6 == 0:
+            r = call_impl(pc.get_n_cyc_array, v, opt=rng.choice(['al', 'ALL', 'max', '']))
+            ctx.oracle("C11.e get_n_cyc_array rejects an unknown opt with ValueError", r == ('err', 'ValueError'), inputs, detail=r)
+            r = call_impl(pc.get_n_cyc_array, v, start=rng.choice(['Origin', 'peaks', 'zero', '']))
+            ctx.oracle("C11.e get_n_cyc_array rejects an unknown start with ValueError", r == ('err', 'ValueError'), inputs, detail=r)
+        # ---- (4) containers and dtypes
+        if it % 2 == 0:
+            refs = {'all': ref, 'max': pc.get_peak_array_indices(v, ptype='max'), 'min': pc.get_peak_array_indices(v, ptype='min'),
+                    'n_cyc': pc.get_n_cyc_array(v), 'n_cyc/peak': pc.get_n_cyc_array(v, start='peak'), 'n_cyc/switched': pc.get_n_cyc_array(v, opt='switched')}
+            for lab, c in gen.container_variants(v):
+                ctx.hist('extras2/container/' + lab)
+                got = {'all': call_impl(pc.get_peak_array_indices, c), 'max': call_impl(pc.get_peak_array_indices, c, ptype='max'),
+                       'min': call_impl(pc.get_peak_array_indices, c, ptype='min'), 'n_cyc': call_impl(pc.get_n_cyc_array, c),
+                       'n_cyc/peak': call_impl(pc.get_n_cyc_array, c, start='peak'), 'n_cyc/switched': call_impl(pc.get_n_cyc_array, c, opt='switched')}
+                for nm in refs:
+                    ctx.oracle('C11 the indices / cycle counter do not depend on the container or dtype holding the series (%s)' % nm,
+                               got[nm][0] == 'ok' and _same(got[nm][1], refs[nm]), {**inputs, 'container': lab},
+                               detail={'got': got[nm][1], 'float64 ndarray': refs[nm]})
+
+
+def _x2_scale(ctx, cur):
+    import eqsig
+    from eqsig.fns import peaks_and_crossings as pc
+    rng = ctx.rng
+    quick = ctx.tier == 'quick'
+
+    # ---- (2) exact scale invariance: indices and counter are homogeneous of degree 0 (products of neighbouring differences stay inside the
+    # normal range for 2^-400 on multiples of 1/8 and overflow to +-inf with the right sign for 2^+500; 2^-600 is the documented underflow
+    # limitation and not demanded)
+    for it in range(20 if quick else 200):
+        n = gen.log_int(rng, 3, 200)
+        v = gen.dyadic_record(rng, n) if it % 2 else gen.plateau_record(rng, n)
+        if len(set(v.tolist())) < 2:
+            continue
+        cur.clear()
+        cur.update({'values': v.tolist()})
+        base = [pc.get_peak_array_indices(v), pc.get_peak_array_indices(v, ptype='max'), pc.get_peak_array_indices(v, ptype='min'),
+                pc.get_n_cyc_array(v), pc.get_n_cyc_array(v, start='peak')]
+        for k in (-400, 500, -200, 900):
+            w = v * 2.0 ** k
+            ctx.hist('extras2/scale/2^%d' % k)
+            ctx.count_case(('x2s', k, v.tobytes()), True)
+            with np.errstate(all='ignore'):
+                got = [call_impl(pc.get_peak_array_indices, w), call_impl(pc.get_peak_array_indices, w, ptype='max'),
+                       call_impl(pc.get_peak_array_indices, w, ptype='min'), call_impl(pc.get_n_cyc_array, w), call_impl(pc.get_n_cyc_array, w, start='peak')]
+            for nm, b, g in zip(('all', 'max', 'min', 'n_cyc', 'n_cyc/peak'), base, got):
+                ctx.oracle('C11 indices and cycle counter are unchanged when the series is scaled by a power of two (%s)' % nm,
+                           g[0] == 'ok' and _same(g[1], b), {'values': v.tolist(), 'scale': '2**%d' % k}, detail={'scaled': g[1], 'base': b})
+
+
+def _x2_large(ctx, cur):
+    import eqsig
+    from eqsig.fns import peaks_and_crossings as pc
+    rng = ctx.rng
+    quick = ctx.tier == 'quick'
+
+    # ---- (1) large instances: thousands of turning points; the property's definition in O(n) with NumPy, decomposition at a reported
+    # index, selections, counter at the reported indices, object wrapper, integer containers
+    sizes = [(rng.choice(['int-walk', 'plateau']), rng.choice([5000, 8192, 12000])), ('noise', rng.choice([20000, 32768, 60000])),
+             ('monotone-stretches', rng.choice([10000, 16384, 50000]))]
+    if not quick:
+        sizes += [(k, m) for k in ('int-walk', 'plateau', 'noise', 'monotone-stretches') for m in (4096, 5001, 65536, 100000)]
+    for kind, n in sizes:
+        desc, v = _large_record(rng, kind, n)
+        cur.clear()
+        cur.update(desc)
+        ctx.hist('extras2/large/' + kind)
+        ctx.count_case(('x2l', kind, n, desc['numpy_seed']), True, sample=desc)
+        want = np_spec_peaks(v)
+        r = call_impl(pc.get_peak_array_indices, v)
+        ok = r[0] == 'ok' and _same(r[1], want)
+        bad_at = None
+        if r[0] == 'ok' and not ok:
+            g = np.asarray(r[1])
+            m = min(len(g), len(want))
+            d = np.nonzero(g[:m] != want[:m])[0]
+            bad_at = {'first differing position': int(d[0]) if len(d) else m, 'got': g[max(0, (int(d[0]) if len(d) else m) - 2):][:6],
+                      'want': want[max(0, (int(d[0]) if len(d) else m) - 2):][:6], 'len got': len(g), 'len want': len(want)}
+        ctx.oracle('C11.a-c (large) reported indices == {0, every turning point, first sample of the final constant run}', ok, desc,
+                   detail=bad_at if r[0] == 'ok' else r, facts={'turning_points': int(len(want))})
+        if r[0] != 'ok':
+            continue
+        P = np.asarray(r[1])
+        wmax, wmin = np_spec_ptype(v, want)
+        for nm, w in (('max', wmax), ('min', wmin)):
+            rr = call_impl(pc.get_peak_array_indices, v, ptype=nm)
+            ctx.oracle("C11.d (large) '%s' selection == the reported local %s" % (nm, 'maxima' if nm == 'max' else 'minima'),
+                       rr[0] == 'ok' and _same(rr[1], w), desc, detail={'got_head': np.asarray(rr[1])[:8] if rr[0] == 'ok' else rr, 'want_head': w[:8]})
+        # decomposition at a reported index p: peaks(v) == peaks(v[:p+1]) + (p + peaks(v[p:]))
+        if len(P) > 4:
+            p = int(P[rng.randrange(1, len(P) - 1)])
+            left, right = pc.get_peak_array_indices(v[:p + 1]), pc.get_peak_array_indices(v[p:])
+            ctx.oracle('C11 (large) whole == parts: splitting the series at a reported index gives the same indices on both sides',
+                       _same(np.concatenate((left, right[1:] + p)), P), {**desc, 'split_at': p})
+        for start, off in (('origin', -0.25), ('peak', 0.0)):
+            rn = call_impl(pc.get_n_cyc_array, v, start=start)
+            ok = rn[0] == 'ok' and len(rn[1]) == n
+            if ok:
+                nc = np.asarray(rn[1])
+                wantp = 0.5 * np.arange(len(want))
+                wantp[1:] += off
+                ok = bool(np.all(np.diff(nc) >= 0)) and bool(np.all(nc[want] == wantp)) and bool(np.all(nc[want[-1]:] == wantp[-1]))
+            ctx.oracle('C11.e (large) cycle counter: series length, non-decreasing, k/2 (%+.2f) at the k-th reported index, constant after the last' % off,
+                       ok, {**desc, 'start': start})
+        asig = _light_history(ctx, eqsig.AccSignal, v, 0.01)
+        ctx.oracle('C11 (large) get_peak_indices(asig) == get_peak_array_indices(values)', _same(pc.get_peak_indices(asig), P), desc)
+        ctx.last_object_history = None
+        for lab, c in gen.container_variants(v, arrays_only=True):
+            ctx.oracle('C11 (large) indices do not depend on the dtype / memory layout of the series', _same(pc.get_peak_array_indices(c), P),
+                       {**desc, 'container': lab})
+        with np.errstate(all='ignore'):
+            for k in (-400, 500) if kind != 'noise' else (-100, 400):
+                ctx.oracle('C11 (large) indices unchanged when the series is scaled by a power of two', _same(pc.get_peak_array_indices(v * 2.0 ** k), P),
+                           {**desc, 'scale': '2**%d' % k})
+
+
+def extras2(ctx):
+    from _hxb_common import guarded_sections
+    guarded_sections(ctx, 'C11', [('wrappers', _x2_wrappers), ('scale', _x2_scale), ('large', _x2_large)])
+
+
+_run_main2 = run
+
+
+def run(ctx):
+    _run_main2(ctx)
+    extras2(ctx)
     ctx.flush()
